@@ -298,6 +298,8 @@ type World struct {
 	servers   []serverRef
 	rawID     *rawIDState
 	shapeCase *shapeCase
+	overrun   *overrunCase
+	vstreams  map[int]*grpctunnel.VerifStream
 	ConnMeta  map[int]ConnMeta
 	wire      map[int]*wireConn
 
